@@ -127,6 +127,10 @@ func (mr *msgReader) resetFlate() {
 	}
 	if mr.flateBufio == nil {
 		mr.flateBufio = getBufioReader(mr.readFunc)
+	} else {
+		// Discard what the previous message left unread, e.g. the padding
+		// after a final DEFLATE block. See RFC 7692 section 7.2.3.4.
+		mr.flateBufio.Reset(mr.readFunc)
 	}
 
 	if mr.flateContextTakeover() {
